@@ -29,7 +29,7 @@ type c06Case struct {
 }
 
 func genC06(t *rapid.T) c06Case {
-	g := &fgen{t: t, maxAtoms: 5, maxDepth: 3, maxWidth: 3, budget: 8, quant: true, edges: 3, multiPC: true}
+	g := &fgen{t: t, maxAtoms: 5, maxDepth: 3, maxWidth: 3, budget: 8, quant: true, edges: 3, multiPC: true, constants: true}
 	p := &m.Profile{Name: "c06"}
 	nv := rapid.IntRange(1, 3).Draw(t, "nv")
 	for i := 0; i < nv; i++ {
